@@ -22,6 +22,7 @@ type accMethod struct {
 
 type accFacts struct {
 	sizeField, crcField string
+	accType, holder     string // the accumulators may live in a small struct held in field `holder` of the writer type
 	methods             map[*ssa.Function]*accMethod
 }
 
@@ -40,15 +41,28 @@ func accumulatorFacts(p *Program, typeName string) *accFacts {
 	for _, in := range instrsOf(write) {
 		switch x := in.(type) {
 		case *ssa.Store:
-			tn, f, _, ok := fieldRef(x.Addr)
-			if !ok || tn != typeName {
+			tn, f, base, ok := fieldRef(x.Addr)
+			if !ok {
 				continue
 			}
-			if b, ok := x.Val.(*ssa.BinOp); ok && b.Op == token.ADD && (loadOfField(b.X, typeName, f) || loadOfField(b.Y, typeName, f)) {
+			if tn != typeName {
+				// a field of a state struct that is itself a field of the writer type
+				htn, hf, _, hok := fieldRef(base)
+				if !hok || htn != typeName || (af.holder != "" && af.holder != hf) {
+					continue
+				}
+				af.holder = hf
+			}
+			if af.accType != "" && af.accType != tn {
+				continue
+			}
+			if b, ok := x.Val.(*ssa.BinOp); ok && b.Op == token.ADD && (loadOfField(b.X, tn, f) || loadOfField(b.Y, tn, f)) {
 				af.sizeField = f
+				af.accType = tn
 			}
 			if c, ok := x.Val.(*ssa.Call); ok && calleeIs(c, "hash/crc32.Update") {
 				af.crcField = f
+				af.accType = tn
 			}
 		case ssa.CallInstruction:
 			c := x.Common()
@@ -65,6 +79,21 @@ func accumulatorFacts(p *Program, typeName string) *accFacts {
 	}
 	if af.sizeField == "" || af.crcField == "" {
 		return nil
+	}
+	if af.accType == "" {
+		af.accType = typeName
+	}
+	accT := af.accType
+	isZero := func(v ssa.Value) bool {
+		c, ok := v.(*ssa.Const)
+		if !ok {
+			return false
+		}
+		if c.Value == nil {
+			_, isStruct := c.Type().Underlying().(*types.Struct)
+			return isStruct
+		}
+		return c.Value.String() == "0"
 	}
 	for _, m := range ms {
 		if m.Blocks == nil || m.Name() == "Write" {
@@ -91,14 +120,26 @@ func accumulatorFacts(p *Program, typeName string) *accFacts {
 			switch x := in.(type) {
 			case *ssa.UnOp:
 				if x.Op == token.MUL {
-					if tn, f, _, ok := fieldRef(x.X); ok && tn == typeName && (f == af.sizeField || f == af.crcField) && returned[x] {
+					if tn, f, _, ok := fieldRef(x.X); ok && tn == accT && (f == af.sizeField || f == af.crcField) && returned[x] {
 						am.reads[f] = true
 						readInstr[f] = append(readInstr[f], x)
+					} else if ok && af.holder != "" && tn == typeName && f == af.holder && returned[x] {
+						// the whole state struct is handed out
+						for _, g := range []string{af.sizeField, af.crcField} {
+							am.reads[g] = true
+							readInstr[g] = append(readInstr[g], x)
+						}
 					}
 				}
 			case *ssa.Store:
-				if tn, f, _, ok := fieldRef(x.Addr); ok && tn == typeName && (f == af.sizeField || f == af.crcField) {
-					if c, ok := x.Val.(*ssa.Const); ok && c.Value != nil && c.Value.String() == "0" {
+				if tn, f, _, ok := fieldRef(x.Addr); ok && af.holder != "" && tn == typeName && f == af.holder && isZero(x.Val) {
+					for _, g := range []string{af.sizeField, af.crcField} {
+						am.resets[g] = true
+						resetInstr[g] = append(resetInstr[g], x)
+					}
+				}
+				if tn, f, _, ok := fieldRef(x.Addr); ok && tn == accT && (f == af.sizeField || f == af.crcField) {
+					if isZero(x.Val) {
 						am.resets[f] = true
 						resetInstr[f] = append(resetInstr[f], x)
 					}
@@ -166,6 +207,29 @@ func checkCapturedBeforeReset(p *Program, r *Result, rule string, fn *ssa.Functi
 				for _, st := range regionStores(region, "Chunk", chunkField) {
 					if flowsFromCall(st.Val, call, region) {
 						iRead = i
+					}
+					// the call hands out the state struct: the header field takes the matching component
+					if fl, ok := stripConv(st.Val).(*ssa.Field); ok && fl.X == ssa.Value(call) {
+						if _, fname2, _, ok := fieldRef(fl); ok && fname2 == accField {
+							iRead = i
+						}
+					}
+					// ... kept in a local first: totals := w.TakeTotals(); ... totals.size
+					if u, ok := stripConv(st.Val).(*ssa.UnOp); ok && u.Op == token.MUL {
+						if fa, ok := u.X.(*ssa.FieldAddr); ok {
+							if al, ok := fa.X.(*ssa.Alloc); ok {
+								nst, fromCall := 0, false
+								for _, ref := range *al.Referrers() {
+									if s2, ok := ref.(*ssa.Store); ok && s2.Addr == ssa.Value(al) {
+										nst++
+										fromCall = s2.Val == ssa.Value(call)
+									}
+								}
+								if _, fname2, _, ok := fieldRef(fa); ok && fname2 == accField && nst == 1 && fromCall {
+									iRead = i
+								}
+							}
+						}
 					}
 				}
 			}
